@@ -14,6 +14,7 @@ Specification: spec/Lines.tla (layout calculus, fault instance), spec/MC_Lines.t
     the text / html error templates are compared with TLC's expectation.
 """
 import hashlib
+import html as _html
 import json
 import os
 import re
@@ -179,10 +180,14 @@ def idx(E, group, pred=None):
     return [i + 1 for i, e in enumerate(E) if e["group"] == group and (pred is None or pred(e))]
 
 
-def cfg(good, faulty, tails, maxpre, nlkinds, invariants):
-    s = "CONSTANTS\n  Good = {%s}\n  Faulty = {%s}\n  Tails = {%s}\n  MaxPre = %d\n  NLKinds = {%s}\n" % (
+ROUTES = ["string", "file", "file+mod", "lookup", "lookup+mod", "include", "include+mod", "inherit", "inherit+mod",
+          "namespace", "namespace+mod"]
+
+
+def cfg(good, faulty, tails, maxpre, nlkinds, invariants, routes=("string",), rich_overrides=True):
+    s = "CONSTANTS\n  Good = {%s}\n  Faulty = {%s}\n  Tails = {%s}\n  MaxPre = %d\n  NLKinds = {%s}\n  Routes = {%s}\n  RichOverrides = %s\n" % (
         ", ".join(map(str, good)), ", ".join(map(str, faulty)), ", ".join(map(str, tails)), maxpre,
-        ", ".join('"%s"' % x for x in nlkinds))
+        ", ".join('"%s"' % x for x in nlkinds), ", ".join('"%s"' % x for x in routes), "TRUE" if rich_overrides else "FALSE")
     s += "SPECIFICATION Spec\nCHECK_DEADLOCK FALSE\n"
     for i in invariants:
         s += "INVARIANT %s\n" % i
@@ -196,6 +201,42 @@ class _Timeout(Exception):
 
 def _alarm(signum, frame):
     raise _Timeout()
+
+
+_TMPL = []
+
+
+def _record(o, e, text, fn, want_rich, want_html=True):
+    """Fill observation `o` from the Mako exception `e` being handled (must be called inside the except block)."""
+    from mako import exceptions
+    o.update(res="exc", type=type(e).__name__, lineno=e.lineno, pos=e.pos,
+             filename_ok=(e.filename == fn) if fn else (e.filename is None),
+             filename=e.filename, source_ok=(e.source == text), msg_ok=("line: %s char: %s" % (e.lineno, e.pos)) in str(e))
+    if not want_rich:
+        return
+    try:
+        rt = exceptions.RichTraceback()
+        o["rich_lineno"] = rt.lineno
+        o["rich_source_ok"] = rt.source == text
+        last = rt.records[-1] if rt.records else None
+        o["rich_last_record_python"] = bool(last) and last[4] is None and last[5] is None
+        if not _TMPL:
+            _TMPL.extend([exceptions.text_error_template(), exceptions.html_error_template()])
+        txt = _TMPL[0].render_unicode()
+        o["text_tmpl_ok"] = ("line: %s char: %s" % (e.lineno, e.pos)) in txt and type(e).__name__ in txt
+        if want_html:
+            html = _TMPL[1].render_unicode(full=False, css=False)
+            m = re.search(r'class="error [^"]*"><table[^>]*><tr><td class="linenos"><div class="linenodiv"><pre>'
+                          r'(?:<span[^>]*>)?\s*(\d+)', html)
+            if m:       # pygments formatter: the offending line is marked and numbered
+                o["html_error_line"] = int(m.group(1))
+                mm = re.search(r'class="error [^"]*">.*?<td class="code"><div><pre>(.*?)</pre>', html, re.S)
+                o["html_error_text"] = _html.unescape(re.sub(r"<[^>]*>", "", mm.group(1))).strip() if mm else None
+            else:       # plain fallback: lines line-4 .. line+4 are shown
+                m = re.search(r'<div class="sample">\s*<div class="nonhighlight">(.*?)</div>\s*</div>', html, re.S)
+                o["html_window"] = [x.strip() for x in m.group(1).split("\n") if x.strip()] if m else None
+    except Exception as e2:  # noqa
+        o["rich_exc"] = type(e2).__name__
 
 
 def observe(text, path, work, want_rich=False):
@@ -228,29 +269,67 @@ def observe(text, path, work, want_rich=False):
                     Template(filename=fn, module_directory=md)
             o["res"] = "noexc"
         except (exceptions.SyntaxException, exceptions.CompileException) as e:
-            o.update(res="exc", type=type(e).__name__, lineno=e.lineno, pos=e.pos,
-                     filename_ok=(e.filename == fn) if fn else (e.filename is None),
-                     filename=e.filename, source_ok=(e.source == text), msg_ok=("line: %s char: %s" % (e.lineno, e.pos)) in str(e))
-            if want_rich:
-                try:
-                    rt = exceptions.RichTraceback()
-                    o["rich_lineno"] = rt.lineno
-                    o["rich_source_ok"] = rt.source == text
-                    txt = exceptions.text_error_template().render_unicode()
-                    o["text_tmpl_ok"] = ("line: %s char: %s" % (e.lineno, e.pos)) in txt and type(e).__name__ in txt
-                    html = exceptions.html_error_template().render_unicode(full=False, css=False)
-                    m = re.search(r'class="error [^"]*"><table[^>]*><tr><td class="linenos"><div class="linenodiv"><pre>'
-                                  r'(?:<span[^>]*>)?\s*(\d+)', html)
-                    if m:       # pygments formatter: the offending line is marked and numbered
-                        o["html_error_line"] = int(m.group(1))
-                    else:       # plain fallback: lines line-4 .. line+4 are shown
-                        m = re.search(r'<div class="sample">\s*<div class="nonhighlight">(.*?)</div>\s*</div>', html, re.S)
-                        o["html_window"] = [x.strip() for x in m.group(1).split("\n") if x.strip()] if m else None
-                except Exception as e2:  # noqa
-                    o["rich_exc"] = type(e2).__name__
+            _record(o, e, text, fn, want_rich)
         except _Timeout:
             o["res"] = "raw:Timeout"
         except Exception as e:  # noqa -- an observation, not a harness failure
+            o["res"] = "raw:" + type(e).__name__
+    finally:
+        signal.alarm(0)
+        signal.signal(signal.SIGALRM, old)
+    return o
+
+
+def outer_template(kind, pre_lines, uri):
+    """A well-formed template that makes the lookup compile `uri` while it renders; it has its own
+    preceding lines, so the line of its tag differs from lines of the inner template."""
+    pre = "".join("outer line %d\n" % (i + 1) for i in range(pre_lines))
+    if kind == "include":
+        return pre + "o <%%include file='%s'/>\nafter\n" % uri
+    if kind == "inherit":
+        return pre + "<%%inherit file='%s'/>\nbody\n" % uri
+    return pre + "<%%namespace name='ns' file='%s'/>\nx ${ns.body()}\n" % uri
+
+
+def observe_route(text, route, work, pre_lines, want_html):
+    """Compile `text` along one compile route (Lines.tla `Routes`); RichTraceback and the error templates are
+    always observed.  Never raises."""
+    from mako import exceptions
+    from mako.template import Template
+    from mako.lookup import TemplateLookup
+    kind, _, mod = route.partition("+")
+    o = {"path": route}
+    fn = None
+    old = signal.signal(signal.SIGALRM, _alarm)
+    signal.alarm(20)
+    try:
+        try:
+            if kind == "string":
+                Template(text)
+            else:
+                d = os.path.join(work, "r")
+                shutil.rmtree(d, ignore_errors=True)
+                os.makedirs(os.path.join(d, "tpl"))
+                kw = {"module_directory": os.path.join(d, "mods")} if mod else {}
+                fn = os.path.join(d, "tpl", "f.html")
+                with open(fn, "wb") as f:
+                    f.write(text.encode("utf-8"))
+                if kind == "file":
+                    Template(filename=fn, **kw)
+                else:
+                    lk = TemplateLookup(directories=[os.path.join(d, "tpl")], **kw)
+                    if kind == "lookup":
+                        lk.get_template("/f.html")
+                    else:
+                        with open(os.path.join(d, "tpl", "outer.html"), "w") as f:
+                            f.write(outer_template(kind, pre_lines, "/f.html"))
+                        lk.get_template("/outer.html").render(v=1)
+            o["res"] = "noexc"
+        except (exceptions.SyntaxException, exceptions.CompileException) as e:
+            _record(o, e, text, fn, True, want_html)
+        except _Timeout:
+            o["res"] = "raw:Timeout"
+        except Exception as e:  # noqa
             o["res"] = "raw:" + type(e).__name__
     finally:
         signal.alarm(0)
@@ -283,13 +362,20 @@ def compare(case, E, text, o):
     if "rich_exc" in o:
         return "richtraceback-raises:" + o["rich_exc"]
     if "rich_lineno" in o:
-        if o["rich_lineno"] != case["line"] or not o["rich_source_ok"]:
-            return "richtraceback"
+        if not o["rich_source_ok"]:
+            return "richtraceback-shows-other-template"
+        if o["rich_lineno"] != case["line"]:
+            return "richtraceback-line"
+        if not o.get("rich_last_record_python", True):
+            return "richtraceback-last-record"
         if not o["text_tmpl_ok"]:
             return "text-error-template"
         if "html_error_line" in o:
-            if o["html_error_line"] != case["line"]:
+            if o["html_error_line"] != case["line"] or (o.get("html_error_text") is not None and
+                                                        o["html_error_text"] != (lc.physical_line(text, case["line"]) or "").strip()):
                 return "html-error-template"
+        elif "html_window" not in o:
+            pass
         elif o.get("html_window") != html_window(text, case["line"]):
             return "html-error-template"
     return None
@@ -366,7 +452,27 @@ def check(run):
     resd2 = run.tlc("MC_Lines", cfg(good, design, tails, maxpre, nlk, ["CatalogOK"]), name="mc-design-cases",
                     workers=workers, extra_files=files, env=env)
     n_design = take(resd2, "design")
-    run.extra["cases"] = {"main": n_main, "eof": n_eof, "design": n_design}
+    # ------------------------------------------------------------------ 2b. TLC: how the faulty template gets compiled
+    few = [i + 1 for i, e in enumerate(E) if e["id"] in ("txtml", "cont", "block", "ctlcont")]
+    allf = faulty + eof_only
+    resr = run.tlc("MC_Lines", cfg(few, allf, [], 1, ["lf"], inv + ["RichShowsFault"], routes=ROUTES), name="mc-routes",
+                   workers=workers, extra_files=files, env=env)
+    if resr.violated:
+        run.spec_violation(resr)
+    route_cases = {}
+    for c in resr.json_lines():
+        if isinstance(c, dict) and "seq" in c and "route" in c:
+            route_cases.setdefault((tuple(c["seq"]), c["route"]), c)
+    route_cases = [route_cases[k] for k in sorted(route_cases)]
+    covered = {(E[c["seq"][c["fpos"] - 1] - 1]["id"], c["route"]) for c in route_cases}
+    if len(covered) != len(allf) * len(ROUTES):
+        raise MachineryError("route instance covers %d of %d (fault entry, route) pairs" % (len(covered), len(allf) * len(ROUTES)))
+    # witness: a RichTraceback that prefers the frames of the traceback over the error's own fields
+    resw = run.tlc("MC_Lines", cfg(few, allf[:3], [], 0, ["lf"], ["RichShowsFault"], routes=ROUTES, rich_overrides=False),
+                   name="mc-routes-witness", workers=2, extra_files=files, env=env, expect_ok=False)
+    if resw.violated != ["RichShowsFault"]:
+        raise MachineryError("witness: RichOverrides = FALSE must violate RichShowsFault on a lazy route (%s)" % resw.violated)
+    run.extra["cases"] = {"main": n_main, "eof": n_eof, "design": n_design, "routes": len(route_cases)}
     run.extra["catalog"] = {"good": len(good), "faults": len(faulty) + len(eof_only), "design_faults": len(design), "cosmetics": cos}
     if n_main < 1000:
         raise MachineryError("TLC exported only %d cases" % n_main)
@@ -405,6 +511,26 @@ def check(run):
         if ci < 3:
             run.sample({"layout": [E[i - 1]["id"] for i in case["seq"]], "nl": case["nl"], "template": text,
                         "expected": {"line": case["line"], "cols": case["cols"]}})
+    # ---- every fault entry x every compile route: exception fields, RichTraceback, error templates
+    seen_html = set()
+    for ci, case in enumerate(route_cases):
+        text = lc.compose(E, case["seq"], "\n")
+        fe = E[case["seq"][case["fpos"] - 1] - 1]
+        h = int(hashlib.sha1(("%d:r:%d" % (run.seed, ci)).encode()).hexdigest()[:8], 16)
+        key = (fe["id"], case["route"])
+        want_html = key not in seen_html or h % 31 == 0
+        seen_html.add(key)
+        o = observe_route(text, case["route"], work, 1 + h % 4, want_html)
+        clause = compare(case, E, text, o)
+        checked += 1
+        if clause:
+            kind = case["route"].split("+")[0]
+            sig = "%s:%s" % (fe["id"], clause)
+            if clause.startswith(("richtraceback", "html-", "text-")) and kind in ("include", "inherit", "namespace"):
+                sig += ":compiled-via-" + kind
+            mism.setdefault(sig, []).append({"template": text, "path": case["route"], "expected": {"line": case["line"], "cols": case["cols"]},
+                                             "observed": o, "layout": [E[i - 1]["id"] for i in case["seq"]], "nl": "lf",
+                                             "design_model_reports": {"line": case["mline"], "col": case["mcol"]}})
     run.traces += checked
     run.extra["compilations_compared"] = checked
     run.extra["cases_on_all_four_paths"] = multi
@@ -445,6 +571,8 @@ def check(run):
         "column of an indented control line: with or without the indentation is accepted (the property is silent)",
         "SyntaxException and CompileException are both accepted for every fault class",
         "three file-based paths + RichTraceback/error templates are run on a seeded sample covering every fault entry x line terminator",
+        "compile routes (direct string/file/lookup, lazily via include/inherit/namespace from a rendering outer template, each with and "
+        "without module_directory): every fault entry x every route each run, over <=1 preceding construct of 4 kinds; html template on a sample per pair",
     ]
     return {"rule": "TLC enumerates layouts (<=%d constructs before [3 over a 9-entry subset in the thorough tier], <=1 after) x %d fault entries x {LF,CRLF} and checks ReportAtFault/"
                     "CursorIsPrefixSum; every exported case is compiled by the real mako and exc.lineno/pos/filename/source, RichTraceback, "
